@@ -48,7 +48,7 @@ type c18Case struct {
 var (
 	c18IssuerPub, c18IssuerPriv, _ = ed25519.GenerateKey(detRand{1})
 	c18HolderPub, c18HolderPriv, _ = ed25519.GenerateKey(detRand{2})
-	_, c18OtherPriv, _             = ed25519.GenerateKey(detRand{3})
+	c18OtherPub, c18OtherPriv, _   = ed25519.GenerateKey(detRand{3})
 )
 
 type detRand struct{ b byte }
@@ -261,11 +261,20 @@ func c18Run(input string) string {
 	if len(c.Alw) > 0 {
 		opts = append(opts, issuer.WithAlwaysIncludeObjects(c.Alw))
 	}
+	// two holders take turns (by the text of the case); the confirmation keys of both carry the SAME holder-chosen `kid`
+	// in half of the cases: whatever a verifier remembers under a key id must not stand in for the key of the token at hand
+	holderPub, holderPriv, otherPriv := c18HolderPub, c18HolderPriv, c18OtherPriv
+	if len(input)%2 == 1 {
+		holderPub, holderPriv, otherPriv = c18OtherPub, c18OtherPriv, c18HolderPriv
+	}
 	if c.HB > 0 {
-		j, err := jwksupport.JWKFromKey(c18HolderPub)
+		j, err := jwksupport.JWKFromKey(holderPub)
 		if err != nil {
 			res["out"] = "setup-error"
 			return emit()
+		}
+		if len(input)%4 < 2 {
+			j.KeyID = "holder-key-1"
 		}
 		opts = append(opts, issuer.WithHolderPublicKey(j))
 	}
@@ -424,7 +433,7 @@ func c18Run(input string) string {
 		}
 		info := &holder.BindingInfo{
 			Payload: holder.BindingPayload{Nonce: "nonce-1", Audience: "https://verifier.example"},
-			Signer:  afjwt.NewEd25519Signer(c18HolderPriv),
+			Signer:  afjwt.NewEd25519Signer(holderPriv),
 		}
 		if c.V == 5 {
 			info.Headers = jose.Headers{"typ": "kb+jwt"} // key binding JWT of the v5 drafts
@@ -435,7 +444,7 @@ func c18Run(input string) string {
 		case 3, 6:
 			info.Payload.Audience = "https://other.example"
 		case 5:
-			info.Signer = afjwt.NewEd25519Signer(c18OtherPriv)
+			info.Signer = afjwt.NewEd25519Signer(otherPriv)
 		}
 		if c.HB != 4 {
 			hv, err = holder.CreateHolderVerification(info)
